@@ -20,4 +20,6 @@ def run(ctx, rep):
     rep.trusted += ['rustc nightly MIR; encoding of format_args! templates on this nightly (decoder fails closed)', 'engines/mirfacts', 'regex-syntax group and flag semantics']
     from props import gen
     gen.rules_c11(ctx, rep)
-    gen.rule_must_reject(ctx, rep, gen.configs(ctx), ['undefined_subpattern'], floor=4)
+    # a spliced reference is treated like the inlined text by the greedy-dot check as well
+    cg.rule_greedy_recursion(rep, crate)
+    gen.rule_must_reject(ctx, rep, gen.configs(ctx), ['undefined_subpattern', 'greedy_dot_hidden'], floor=8)
